@@ -54,11 +54,28 @@ func (n *cnode) ServeHTTP(w http.ResponseWriter, r *http.Request) {
 type fakeNet struct {
 	mu    sync.Mutex
 	nodes map[string]*cnode
+	rec   bool      // record the exact host every request was sent to
+	dials []dialRec // since the last take()
+}
+
+// dialRec is one request as it left a node: the exact URL host it was sent to.
+type dialRec struct{ host, method, path string }
+
+// take returns the requests recorded since the last call.
+func (f *fakeNet) take() []dialRec {
+	f.mu.Lock()
+	d := f.dials
+	f.dials = nil
+	f.mu.Unlock()
+	return d
 }
 
 func (f *fakeNet) RoundTrip(req *http.Request) (*http.Response, error) {
 	f.mu.Lock()
 	n := f.nodes[req.URL.Host]
+	if f.rec {
+		f.dials = append(f.dials, dialRec{req.URL.Host, req.Method, req.URL.Path})
+	}
 	f.mu.Unlock()
 	if n == nil {
 		return nil, errors.New("harness transport: no such host " + req.URL.Host)
